@@ -51,9 +51,9 @@ def renderKids (ks : List Tree) : Bytes := renderToks (toksL ks)
 /-- bytes allowed in element and attribute names -/
 def nameByte (b : UInt8) : Bool :=
   !(b = LT || b = GT || b = SLASH || b = SPACE || b = EQS || b = QUOTE || b = 9 || b = 10 || b = 13 || b = BANG || b = QMARK)
-/-- bytes allowed in attribute values: no space, no markup, no quote, and no `=`
-(the parser drops an attribute whose value contains `=`: known finding C12-attr-value-equals) -/
-def valueByte (b : UInt8) : Bool := !(b = LT || b = GT || b = SPACE || b = EQS || b = QUOTE)
+/-- bytes allowed in attribute values: no space, no markup, no quote (`=` is allowed: the parser splits
+a `name="value"` piece at its first `=` only) -/
+def valueByte (b : UInt8) : Bool := !(b = LT || b = GT || b = SPACE || b = QUOTE)
 /-- bytes allowed in character data -/
 def textByte (b : UInt8) : Bool := !(b = LT || b = GT)
 
